@@ -52,6 +52,10 @@ SCRIPTS = {
     "lcd-i2c": (HEAD + "lcd = LCD(i2c_addr=0x27)\nlcd.write(0, 0, 'hi')\n", ["LiquidCrystal_I2C"]),
     "all-libs": (HEAD + "a = Servo(9)\nb = Servo(10)\nl1 = LCD(rs=12, en=11, d4=5, d5=4, d6=3, d7=2)\nl2 = LCD(i2c_addr=0x27)\nl1.write(0, 0, 'x')\nl2.write(0, 0, 'y')\na.write(5)\nb.write(6)\n", ["Servo", "LiquidCrystal", "LiquidCrystal_I2C"]),
     "decoy": ("from Reduino.Actuators import Led\nServo_name = 'Servo(9) LiquidCrystal'\nled = Led(3)\nled.on()\n", []),
+    # characters a reader of the file might be tempted to normalise: the firmware is that of the text as written
+    "tab-in-string": ("from Reduino.Communication import SerialMonitor\nmon = SerialMonitor(9600)\nmon.write('a\tb')\nx = 'k\t\tv'\nmon.write(x)\nmon.write('end \t')\n", []),
+    "tab-indent": (HEAD + "led = Led(13)\nwhile True:\n\tled.toggle()\n\tif True:\n\t\tsleep(5)\n", []),
+    "odd-spaces": ("from Reduino.Communication import SerialMonitor\nmon = SerialMonitor(9600)\nmon.write('a  b   c')\nmon.write(' lead')\nmon.write('trail ')   \nmon.write('nb\u00a0sp \u2003 em')\n", []),
     "rejected": (HEAD + "while True:\n    break\n", None),  # parser raises ValueError
 }
 PAIRS = {
